@@ -22,7 +22,7 @@ RULE = ("sessions over (host active / equipment passive and the reverse) x (enab
         "simultaneous) x initial control state x link seeds (segmentation, latency, accept/connect order), each with a random "
         "sequence (<= 25, thorough <= 100) of host calls {request_svs, request_sv, list_svs, request_ecs, list_ecs, set_ec, "
         "list_alarms, list_enabled_alarms, enable/disable_alarm, go_online, go_offline, send_remote_command, are_you_there} "
-        "and equipment actions {trigger, set/clear alarm, control switches, value updates} and 0-3 disable/enable cycles of "
+        "and equipment actions {trigger (ids as numbers and as CollectionEventId members, one or two per call), set/clear alarm, control switches, value updates} and 0-3 disable/enable cycles of "
         "either side; distinct by (configuration, link seed, call sequence); non-trivial when the API phase ran at least 5 calls")
 ASSUMPTIONS = ["'within a bounded time' is virtual time: at most 10 establish-communications timer expiries per convergence, "
                "with a 20 s wall-clock watchdog whose firing is inconclusive unless every thread is parked",
